@@ -146,6 +146,7 @@ static size_t der_mutate(Rng *r, const uint8_t *cert, size_t certlen, uint8_t *o
 		int id = (int)rng_below(r, (uint32_t)g_ndn);
 		DNode *d = &g_dn[id];
 		int kind = (int)rng_below(r, 12);
+		if (g_ndn <= 8 && rng_chance(r, 1, 3)) kind = 7;      /* small trees (ciphertext, signature): content sizes matter most */
 		switch (kind) {
 		case 0: case 1: case 2: d->lenmode = 1 + (int)rng_below(r, 8); snprintf(what, wl, "der_len%d@node%d(tag%02x)", d->lenmode, id, d->tag); break;
 		case 3: d->dup = rng_chance(r, 1, 2) ? 1 : 2 + (int)rng_below(r, 30);        /* once, or a whole run of copies (SEQUENCE OF beyond its receiver's array) */
@@ -238,6 +239,9 @@ static size_t hs_mutate(Rng *r, uint8_t *rec, size_t len, size_t cap, int tls13,
 	what[0] = 0;
 	/* the Hello messages have their own family of field-aware mutators: use it half of the time */
 	if ((ht == TLS_handshake_client_hello || ht == TLS_handshake_server_hello) && rng_chance(r, 1, 2)) kind = 6;
+	/* messages that are little more than one DER blob (SM2 ciphertext, signatures) end in fixed-size receivers:
+	 * their DER-aware mutator gets a larger share */
+	if ((ht == TLS_handshake_client_key_exchange || ht == TLS_handshake_server_key_exchange || ht == TLS_handshake_certificate_verify) && rng_chance(r, 1, 3)) kind = 11;
 
 	if (ht == TLS_handshake_certificate && blen > 10 && kind < 8) {
 		/* re-frame the certificate list with one certificate mutated, or a huge list */
